@@ -17,7 +17,7 @@ from models import lin
 ID = "C12"
 ENGINE = "threadsim"
 LEVEL = "exploration"
-TIERS = {"quick": {"runs": 6000, "timeout": 900}, "thorough": {"runs": 200000, "timeout": 7200,
+TIERS = {"quick": {"runs": 40000, "timeout": 900}, "thorough": {"runs": 1200000, "timeout": 7200,
                                                                "lane_timeout": 1200}}
 EST_STEPS = [80, 200, 500]
 P_OPCODE = 0.15
